@@ -164,7 +164,7 @@ type wbCase struct {
 	History  []HistOp  `json:"history"`
 }
 
-var allFeatures = []string{"alias", "dirs", "bin", "tags", "fingerprint", "platforms", "tests", "checks", "fail", "timeouts", "edit-outs", "edit-deps", "rootpkg", "wsmut", "taint", "nocache-build", "extfail", "twins", "mirror"}
+var allFeatures = []string{"alias", "dirs", "bin", "tags", "fingerprint", "platforms", "tests", "checks", "fail", "timeouts", "edit-outs", "edit-deps", "rootpkg", "wsmut", "taint", "nocache-build", "extfail", "twins", "mirror", "testonly", "flatnames"}
 
 func (w *wbuild) Name() string { return "wbuild" }
 
@@ -443,6 +443,12 @@ func (w *wbuild) Drive(s *simrt.Sched, out *RunResult) {
 		case "edit":
 			snapshots = append(snapshots, w.U.Clone())
 			nu, ed := genEdit(c, w.U, w.g, snapshots)
+			if ed.Op == "toggle-nocache" && ed.Target != "" {
+				if w.toggled == nil {
+					w.toggled = map[string]bool{}
+				}
+				w.toggled[ed.Target] = true
+			}
 			w.mu.Lock()
 			w.U = nu
 			w.mu.Unlock()
@@ -555,7 +561,7 @@ func (w *wbuild) mutateWorkspace(m *Machine) string {
 	o := sp.Outs[c.Choose(len(sp.Outs), "wsmut-out")]
 	abs := filepath.Join(m.WS, sp.Pkg, o.Path)
 	w.lastMut = func(m2 *Machine) (string, OutSpec, string) { return filepath.Join(m2.WS, sp.Pkg, o.Path), o, filepath.Join(m2.WS, sp.Pkg) }
-	kind := pick(c, "wsmut-kind", "delete", "delete-parent", "modify", "truncate", "extra-file", "swap-kind", "modify-longer")
+	kind := pick(c, "wsmut-kind", "delete", "delete-parent", "modify", "truncate", "extra-file", "swap-kind", "modify-longer", "replace-other-mode")
 	if kind == "swap-kind" && o.Kind != "dir" {
 		kind = "delete" // the property names "a file where a directory should be", not the reverse
 	}
@@ -593,6 +599,25 @@ func applyMutation(kind, abs string, o OutSpec, pkgDir string) {
 			os.WriteFile(filepath.Join(abs, "f0.dat"), []byte("tampered"), 0644)
 		} else {
 			os.WriteFile(abs, []byte("tampered"), 0644)
+		}
+	case "replace-other-mode":
+		// a stale file with other content AND the other executable bit sits at the output path
+		if o.Kind == "dir" {
+			for _, f := range []string{"f0.dat", "f1.dat", "f2.dat"} {
+				p := filepath.Join(abs, f)
+				if st, err := os.Lstat(p); err == nil && st.Mode().IsRegular() {
+					os.Remove(p)
+					os.WriteFile(p, []byte("stale, other mode"), 0644^(st.Mode().Perm()&0111)|(^st.Mode().Perm()&0111))
+				}
+			}
+		} else {
+			mode := os.FileMode(0755)
+			if st, err := os.Lstat(abs); err == nil && st.Mode()&0111 != 0 {
+				mode = 0644
+			}
+			os.Remove(abs)
+			os.WriteFile(abs, []byte("stale, other mode"), mode)
+			os.Chmod(abs, mode)
 		}
 	case "modify-longer":
 		long := strings.Repeat("a much longer stale file than any output; ", 6)
@@ -820,7 +845,7 @@ func (w *wbuild) checkBuild(res *InvResult, req BuildReq, opts InvOpts, cm *cach
 	forcedNow := map[string]bool{}
 	for _, l := range order {
 		k := ext0["fail_"+l]
-		if k == "omit" && len(u.Specs[l].Outs) == 0 || k == "break" && len(u.Specs[l].Checks) == 0 {
+		if k == "omit" && len(u.Specs[l].Outs) == 0 || k == "break" && len(u.Specs[l].Checks) == 0 || k == "slow" && u.Specs[l].TimeoutMS == 0 {
 			k = "exit"
 		}
 		extFail0[l] = k
@@ -867,14 +892,14 @@ func (w *wbuild) checkBuild(res *InvResult, req BuildReq, opts InvOpts, cm *cach
 			reason = "tainted"
 		case checkFails:
 			reason = "output-check-failing"
-		case cm.unc[kS] || cm.depUnc[kS] || depClobbered(sp) || w.dirInWay[l] || cm.taintUnc[l] || faulted:
+		case cm.unc[kS] || cm.depUnc[kS] || depClobbered(sp) || w.dirInWay[l] || cm.taintUnc[l] || faulted || w.depToggled(u, sp):
 		case !cm.strict[kS]:
 			reason = "no-result-for-current-state"
 		}
 		verdict := "may"
 		if reason != "" {
 			verdict = "must"
-		} else if !cm.unc[kS] && !cm.depUnc[kS] && !depClobbered(sp) && !w.dirInWay[l] && !cm.taintUnc[l] && !faulted && cm.loose[kL] {
+		} else if !cm.unc[kS] && !cm.depUnc[kS] && !depClobbered(sp) && !w.dirInWay[l] && !cm.taintUnc[l] && !faulted && !w.depToggled(u, sp) && cm.loose[kL] {
 			verdict = "mustnot"
 		}
 		// model outcome of an execution
@@ -1032,7 +1057,7 @@ func (w *wbuild) checkBuild(res *InvResult, req BuildReq, opts InvOpts, cm *cach
 		if res.ExitCode == 0 {
 			prop := "C05"
 			for _, l := range failedLabels {
-				if u.Specs[l].Fail == "omit" || u.Specs[l].Fail == "slow" || len(u.Specs[l].Checks) > 0 || extFail0[l] == "omit" || extFail0[l] == "break" {
+				if u.Specs[l].Fail == "omit" || u.Specs[l].Fail == "slow" || len(u.Specs[l].Checks) > 0 || extFail0[l] == "omit" || extFail0[l] == "break" || extFail0[l] == "slow" {
 					prop = "C14"
 				}
 			}
@@ -1176,4 +1201,17 @@ func short(s string) string {
 		return s[:24] + "…"
 	}
 	return s
+}
+
+// depToggled: a direct dependency had its no-cache tag toggled during this history. The output
+// hash a dependant sees for an uncached dependency is computed differently from the one of a
+// cached dependency, so the first builds after the toggle may re-execute dependants
+// (DESIGN.md appendix A: left open).
+func (w *wbuild) depToggled(u *Universe, sp *Spec) bool {
+	for _, d := range u.DepTargets(sp) {
+		if w.toggled[d] {
+			return true
+		}
+	}
+	return w.toggled[sp.Label()]
 }
